@@ -11,6 +11,7 @@ From SWH.lib Require Import Bytes Dec Hex Utf8 Percent.
 From SWH Require Import Generated.
 From SWH.model Require Import Swhid.
 From SWH.proofs Require Import SwhidTables SwhidLib PercentProofs SwhidProofs SwhidLangProofs SwhidShapeProofs SwhidProps.
+From SWH.proofs Require SwhidExamples.
 Import ListNotations.
 Open Scope N_scope.
 
